@@ -24,8 +24,9 @@ def classify_assertion(exc):
     return None
 
 
-def run_program(kind, k, choose, text_check=None):
+def run_program(kind, k, choose, text_check=None, profile='wide'):
     """-> dict(status=done|rejected|violation, trace, kind, msg)"""
+    P.set_profile(profile)
     runner = P.RUNNERS[kind]
     try:
         trace, status = runner(choose, k, text_check)
@@ -40,7 +41,7 @@ def run_program(kind, k, choose, text_check=None):
         return {'status': 'violation', 'vkind': c, 'msg': f'AssertionError {a} at {tb.filename.split("/")[-1]}:{tb.lineno} {tb.name}'}
 
 
-def shard_prefixes(kind, k, depth):
+def shard_prefixes(kind, k, depth, profile='wide'):
     class Stop(Exception):
         pass
 
@@ -56,7 +57,7 @@ def shard_prefixes(kind, k, depth):
             res[0] = len(opts)
             raise Stop()
         try:
-            run_program(kind, k, ch)
+            run_program(kind, k, ch, None, profile)
         except Stop:
             return res[0]
         return 0
@@ -76,7 +77,7 @@ def shard_prefixes(kind, k, depth):
     return [tuple(x for x in p if x is not None) for p in shards]
 
 
-def run_shard(kind, k, pins, with_text=True, max_viol=10):
+def run_shard(kind, k, pins, with_text=True, max_viol=10, profile='wide'):
     t0 = time.time()
     text_check = None
     if with_text:
@@ -100,7 +101,7 @@ def run_shard(kind, k, pins, with_text=True, max_viol=10):
             o = shapex.choose(nm, list(range(len(opts))))
             seq.append(o)
             return opts[o]
-        r = run_program(kind, k, ch, text_check)
+        r = run_program(kind, k, ch, text_check, profile)
         r['choices'] = list(seq)
         return r
 
@@ -109,7 +110,7 @@ def run_shard(kind, k, pins, with_text=True, max_viol=10):
         if r['status'] == 'violation':
             stats['violations'] += 1
             if len(viols) < max_viol:
-                viols.append({'kind': kind, 'k': k, 'choices': r['choices'], 'vkind': r['vkind'], 'msg': r['msg']})
+                viols.append({'kind': kind, 'k': k, 'profile': profile, 'choices': r['choices'], 'vkind': r['vkind'], 'msg': r['msg']})
             return
         stats[r['status']] += 1
         stats['api_calls_checked'] += sum(1 for st in r['trace'] if not str(st[2]).startswith('rejected'))
@@ -125,7 +126,8 @@ def run_shard(kind, k, pins, with_text=True, max_viol=10):
     if pcs:
         s.add(z3.Or(pcs))
         reach = 1 if str(s.check()) == 'sat' else 0
-    return {'kind': kind, 'k': k, 'pins': list(pins), 'stats': stats, 'violations': viols, 'samples': samples,
+    from harness import C36_types as _T
+    return {'kind': kind, 'k': k, 'profile': profile, 'pins': list(pins), 'text_stats': {a: b for a, b in _T.STATS.items()}, 'stats': stats, 'violations': viols, 'samples': samples,
             'reach': reach, 'secs': round(time.time() - t0, 2), 'solver_calls_explorer': ex.solver_calls}
 
 
@@ -143,7 +145,7 @@ def replay_concrete(d):
     if d.get('with_text', True):
         from harness import C36_types
         text_check = C36_types.text_check
-    r = run_program(d['kind'], d['k'], ch, text_check)
+    r = run_program(d['kind'], d['k'], ch, text_check, d.get('profile', 'wide'))
     if r['status'] == 'violation':
         return True, f"{r['vkind']}: {r['msg']}"
     return False, f"{r['status']}: {r.get('trace')}"
